@@ -49,6 +49,11 @@ CHECKS = {
    text="Stream.tla with the save_target consumer (temporary file, rename after a verified end, removal on failure) and an observer between any two steps: TLC checks NoPartialAtDest, FailureChangesNothing, SuccessIsComplete; every path is replayed through Repository::save_target while the transport inspects the destination before every chunk and the directory tree around the output directory is compared before/after. Names.tla transcribes clean_name and the containment check; TLC enumerates every name up to length 5 over a path-significant alphabet and each is saved for real (both prefix modes), plus random names up to length 40.",
    note="Trusted: TLC; observation points are the moments before each transport chunk is delivered (single-threaded runtime); directories are not counted as files. Target names reach the transport as relative URL references; the harness serves the content under the URL the client derives.",
    technique="TLA+ models (Stream, Names; TLC exhaustive) + replay through save_target with file-system observation"),
+
+ "C18": dict(cat="model_checking", design="5 C18",
+   text="Http.tla transcribes RetryStream (current_try, next_byte, has_range_support, may_retry, build_request) against a server that answers every request with any response of the property's alphabet, with or without Accept-Ranges; TLC checks PrefixOnly, OkMeansComplete, RequestsAtMostTries, RangeOnlyIfAnnounced, NotFoundClass, ClientErrorsFailFast for tries 1..4 and sizes 0..3 units. Every terminal path is replayed against the real HttpTransport and a scripted raw-TCP server (unit 1 B .. 64 KiB, i.e. up to 192 KiB resources; stalls as silence past the request timeout); the server's request log (Range headers) and the bytes yielded are judged by the property and compared with the model.",
+   note="Trusted: TLC, the local TCP stack, reqwest's classification of a body timeout as retryable. Connection resets / malformed responses are outside the property's alphabet.",
+   technique="TLA+ model of the retry state machine (TLC exhaustive) + replay against the real transport and a scripted HTTP server"),
 }
 NA_REASON = "check not built yet in this round (planned, see DESIGN.md section 5); not claimed"
 
